@@ -568,9 +568,8 @@ def probes_for(r, fam, n_members, limit):
 # ------------------------------------------------------------------ the check
 def probe_user_subclasses(ctx):
     """Schemas of user-defined subclasses of the built-in schema classes (outside the model's
-    universe): == returns a bool, != is its negation and == is reflexive, in every pairing of a
-    derived instance with a base instance.  (Symmetry is NOT demanded here: on the unchanged code
-    base == derived compares props while derived == base is False - an observation, DESIGN 12.2.)"""
+    universe): == returns a bool, != is its negation, == is reflexive and symmetric, in every pairing
+    of a derived instance with a base instance."""
     from d42.declaration.types import DictSchema, FloatSchema, IntSchema, ListSchema, StrSchema
 
     class PortSchema(IntSchema):
@@ -616,6 +615,13 @@ def probe_user_subclasses(ctx):
                     bad = f"== is {e} but != is {ne}"
                 elif a is b and not e:
                     bad = "s == s is False"
+                else:
+                    try:
+                        e2 = (b == a)
+                    except Exception as ex:  # noqa
+                        e2 = repr(ex)
+                    if e2 != e:
+                        bad = f"a == b is {e} but b == a is {e2}"
                 if bad:
                     ctx.violation("equality laws fail for a user-defined subclass of a schema class: " + bad,
                                   {"kind": "input", "left": f"{na} ({type(a).__name__}, {a!r})",
